@@ -3,6 +3,7 @@ import ast
 from fractions import Fraction as Fr
 from ..core import Result
 from ..pm import AnalysisError, unparse
+from ..match import Code
 from ..rat import (Ev, Rat, Sym, Poly, fn_eval, rat_eq, Inconclusive, ONE,
                    ZERO, const_of)
 from ..sem import (rat_grade, parity, Inhomogeneous, L as GL, W as GW, ONE_G,
@@ -261,7 +262,7 @@ def scale_system(ctx):
                                  f'{nm} does not receive old * scale_factor '
                                  f'for the same surface',
                                  construct=f'scale {nm}'))
-    s = unparse(f.node, 6000)
+    s = Code(P, f)
     checks = [
         ('radii = self.surface_group.radii' in s and
          'self.surface_group.get_thickness(surf_idx)[0]' in s and
